@@ -81,6 +81,24 @@ func (RxEngine) Generate(prop string, r *kit.Rand, tier string) *kit.Scenario[Rx
 		sc.Ops = append(sc.Ops, RxOp{Base: "interest", Seed: r.Intn(1 << 16)}, RxOp{Base: "data", Seed: r.Intn(1 << 16)})
 		return sc
 	}
+	if !c.Stream && r.Chance(0.05) {
+		// the long life of one face's reassembly store: a hundred or so fragmented messages, most delivered
+		// completely and in order, some re-sent after completion, some left incomplete, a few with a corrupted field
+		for k, nk := 0, r.Range(60, 160); k < nk; k++ {
+			m := r.Intn(48)
+			for f := 0; f < 6; f++ {
+				if r.Chance(0.04) {
+					continue // a lost fragment
+				}
+				o := RxOp{Base: "fragx", Seed: m + 48*f}
+				if r.Chance(0.02) {
+					o.Mut, o.At, o.Val = "fragfield", r.Intn(3), kit.Pick(r, hugeVals)
+				}
+				sc.Ops = append(sc.Ops, o)
+			}
+		}
+		return sc
+	}
 	bases := []string{"interest", "data", "lp-interest", "lp-data", "frag", "nack", "idle", "random", "edge"}
 	for i := 0; i < n; i++ {
 		o := RxOp{Base: bases[r.Weighted([]int{5, 5, 5, 5, 6, 1, 1, 2, 3})], Seed: r.Intn(1 << 16)}
@@ -445,12 +463,20 @@ func (w *rxWorld) buildFrame(o *RxOp) []byte {
 		for i := 4; i < len(f); i++ {
 			f[i] = byte(i * 7)
 		}
-	case "frag":
-		// a message of several fragments produced by the real sender; op selects one fragment
-		msg := o.Seed % 8
+	case "frag", "fragx":
+		// a message of several fragments produced by the real sender; op selects one fragment ("fragx": one of 48
+		// messages instead of 8, for long histories of a face's reassembly store)
+		nmsg := 8
+		if o.Base == "fragx" {
+			nmsg = 48
+		}
+		msg := o.Seed % nmsg
+		if o.Base == "fragx" {
+			msg += 100
+		}
 		frs := w.fragCache[msg]
 		if frs == nil {
-			raw := rxData(msg*13+1, 600+msg*250)
+			raw := rxData(msg*13+1, 600+(msg%8)*250)
 			p, _, _ := spec.ReadPacket(enc.NewBufferReader(append([]byte(nil), raw...)))
 			w.txFrames = nil
 			w.tx.VerifSendNow(dispatch.OutPkt{Pkt: &defn.Pkt{L3: p, Raw: raw, Name: p.Data.NameV}, PitToken: []byte{0, 0, 9, 9, 9, byte(msg)}})
@@ -460,7 +486,7 @@ func (w *rxWorld) buildFrame(o *RxOp) []byte {
 		if len(frs) == 0 {
 			return rxData(o.Seed, 10)
 		}
-		f = append([]byte(nil), frs[(o.Seed/8)%len(frs)]...)
+		f = append([]byte(nil), frs[(o.Seed/nmsg)%len(frs)]...)
 	default:
 		f = rxInterest(o.Seed)
 	}
